@@ -76,6 +76,10 @@ var vc13Slots = []*vc13Slot{
 	{name: "a", kind: vc13KindRule, path: "/rl/a", file: "vc13_a", id: "vc13_a"},
 	{name: "b", kind: vc13KindRule, path: "/rl/b", file: "vc13_b", id: "vc13_b"},
 	{name: "c", kind: vc13KindRule, path: "/rl/c", file: "vc13_c", id: "vc13_c"},
+
+	// A list whose ID differs from that of list "a" only in letter case;
+	// IDs are case-sensitive, so it is another list with its own cache file.
+	{name: "ua", kind: vc13KindRule, path: "/rl/ua", file: "VC13_A", id: "VC13_A"},
 	{name: "svc", kind: vc13KindSvc, path: "/svc", file: vc13SvcFile},
 	{name: "ssg", kind: vc13KindSS, path: "/ssg", file: string(filter.IDGeneralSafeSearch), id: filter.IDGeneralSafeSearch},
 	{name: "ssy", kind: vc13KindSS, path: "/ssy", file: string(filter.IDYoutubeSafeSearch), id: filter.IDYoutubeSafeSearch},
@@ -85,7 +89,13 @@ var vc13Slots = []*vc13Slot{
 }
 
 // vc13RuleNames are the names of the rule-list slots.
-var vc13RuleNames = []string{"a", "b", "c"}
+var vc13RuleNames = []string{"a", "b", "c", "ua"}
+
+// vc13CaseTwin maps a rule list to the one whose ID differs only in case.
+var vc13CaseTwin = map[string]string{"a": "ua", "ua": "a"}
+
+// vc13Key returns the index key of a rule list.
+func vc13Key(name string) (key string) { return string(vc13SlotByName(name).id) }
 
 // vc13SlotByName returns the slot with the given name.
 func vc13SlotByName(name string) (s *vc13Slot) {
@@ -481,9 +491,9 @@ func vc13ShapeDoc(sh *vc13Shape, base string, ver int) (b []byte) {
 	var entries []any
 	byKey := map[string]any{}
 	for _, name := range vc13RuleNames {
-		e := map[string]any{"filterKey": "vc13_" + name, "downloadUrl": base + vc13SlotByName(name).path}
+		e := map[string]any{"filterKey": vc13Key(name), "downloadUrl": base + vc13SlotByName(name).path}
 		entries = append(entries, e)
-		byKey["vc13_"+name] = e
+		byKey[vc13Key(name)] = e
 	}
 
 	var doc any
@@ -570,14 +580,14 @@ func vc13IndexBody(base string, ver int, entries []vc13Entry, notJSON bool, pad 
 				worse("partial")
 			}
 			info.urls[e.L] = append(info.urls[e.L], p)
-			fls = append(fls, map[string]any{"filterKey": "vc13_" + e.L, "downloadUrl": base + p, "name": e.L})
+			fls = append(fls, map[string]any{"filterKey": vc13Key(e.L), "downloadUrl": base + p, "name": e.L})
 		case "dupalt":
 			p := vc13SlotByName(e.L).path + "/dup"
 			if len(info.urls[e.L]) > 0 {
 				worse("partial")
 			}
 			info.urls[e.L] = append(info.urls[e.L], p)
-			fls = append(fls, map[string]any{"filterKey": "vc13_" + e.L, "downloadUrl": base + p, "name": e.L})
+			fls = append(fls, map[string]any{"filterKey": vc13Key(e.L), "downloadUrl": base + p, "name": e.L})
 		case "nil":
 			worse("partial")
 			fls = append(fls, nil)
@@ -593,7 +603,7 @@ func vc13IndexBody(base string, ver int, entries []vc13Entry, notJSON bool, pad 
 		case "keybad":
 			worse("partial")
 			fls = append(fls, map[string]any{
-				"filterKey":   "vc13_" + e.L,
+				"filterKey":   vc13Key(e.L),
 				"downloadUrl": vc13BadURL(base, e.U, vc13SlotByName(e.L).path),
 				"name":        e.L,
 			})
@@ -1019,6 +1029,24 @@ func (u *vc13Units) observeServed(msgs *dnsmsg.Constructor, tried map[string][]i
 	served = map[string]int{}
 	for _, s := range vc13Slots {
 		f := u.strg.ForConfig(context.Background(), vc13ConfFor(s))
+
+		// Every rule that a list serves comes from a body that was sent for
+		// that list: the list whose ID differs only in case is another list.
+		if twin := vc13CaseTwin[s.name]; twin != "" {
+			for _, ver := range tried[twin] {
+				hit, err := vc13Hit(f, msgs, vc13First(twin, ver))
+				if err != nil {
+					return nil, fmt.Sprintf("slot %s: filtering error: %v", s.name, err)
+				}
+
+				if hit {
+					return nil, fmt.Sprintf(
+						"list %q (id %q) serves a rule of version %d of list %q (id %q), whose ID differs only in letter case",
+						s.name, s.id, ver, twin, vc13SlotByName(twin).id,
+					)
+				}
+			}
+		}
 
 		var firsts, lasts []int
 		for _, ver := range tried[s.name] {
